@@ -5,6 +5,7 @@
 # property whose modules do not build here is reported by its own check, not hidden: this script
 # keeps going and prints a summary.
 cd "$(dirname "$0")"
+mkdir -p build evidence
 python3 tools/gen_all.py || echo "setup: translator reported an error (the affected check will report it)"
 cd lean
 FAILED=""
